@@ -10,7 +10,7 @@ HOSTILE = ["rates_high", "durations_tiny", "numbers_huge", "empty", "zero", "mix
 MANIFEST_ENTRY = {
     "category": "exploration",
     "technique": "offline sign/finiteness/over-draw checker plus reference recomputation of requested fractions and the common scaling factor from recorded parameter values, generated and shipped (corpus) models, negative data and negative function values",
-    "text": "All stocks, flows and per-bin contents of each run are checked finite and >= 0, total outflow <= stock, negative parameter => zero flow, and every parameter-driven flow is recomputed from the recorded parameter value by the documented conversion with one common factor per compartment (per bin in timed compartments); hostile value classes make the rescaling branch fire in most cases (counted). Every 8th case is a model shipped with the repository (49 library / fixture framework-databook(-program book) combinations and 18 fixture frameworks with a generated databook: several population types, interactions, derivative parameters, hand-made junction and duration-group layouts) run under perturbation: other step sizes and horizons, calibration factors from mild to hostile, program books switched on at arbitrary years with scaled budgets. About a third of the generated runs carry a generated program set (program-driven rates, numbers and junction proportions, boundary outcomes of exactly 0). Negative values reach transition parameters through functions and through databook entries.",
+    "text": "All stocks, flows and per-bin contents of each run are checked finite and >= 0, total outflow <= stock, negative parameter => zero flow, and every parameter-driven flow is recomputed from the recorded parameter value by the documented conversion with one common factor per compartment (per bin in timed compartments); hostile value classes make the rescaling branch fire in most cases (counted). Every 8th case is a model shipped with the repository (49 library / fixture framework-databook(-program book) combinations and 18 fixture frameworks with a generated databook: several population types, interactions, derivative parameters, hand-made junction and duration-group layouts) run under perturbation: other step sizes and horizons, calibration factors from mild to hostile, program books switched on at arbitrary years with scaled budgets. About a third of the generated runs carry a generated program set (program-driven rates, numbers and junction proportions, boundary outcomes of exactly 0). Negative values reach transition parameters through functions and through databook entries. Negative values also reach junction proportions (a negative proportion sends nobody that way and does not enter the normalisation).",
     "note": "The recomputation uses recorded parameter values (their correctness is C06's job) and the internal per-bin arrays of timed compartments where the property speaks about bins.",
 }
 
